@@ -11,7 +11,7 @@ not read become `-- UNREADABLE` stubs whose tie theorem then fails (a broken obl
 import sys, os, re
 from fractions import Fraction
 sys.path.insert(0, os.path.dirname(os.path.abspath(__file__)))
-from rustexpr import parse_fn, Unsupported
+from rustexpr import parse_fn, find_fn, parse_block, parse_params, Unsupported
 
 LEAN_KW = {"at", "from", "end", "open", "fun", "show", "have", "then", "do", "in", "if", "else", "let", "match",
            "with", "by", "where", "namespace", "section", "def", "theorem", "instance", "class", "structure",
@@ -318,7 +318,8 @@ class Emit:
             elif self.foreach_target(x) is not None:
                 add(self.foreach_target(x)[0])
             elif x[0] == "mcall" and x[2] in self.cfg.get("selfmut", {}) and x[1] == ("path", ["self"]):
-                add(self.lhs_name(x[3][self.cfg["selfmut"][x[2]][0]]))
+                a0 = self.cfg["selfmut"][x[2]][0]
+                add(a0 if isinstance(a0, str) else self.lhs_name(x[3][a0]))
             elif x[0] == "for":
                 for v in self.assigned(self.as_stmts(x[3])):
                     add(v)
@@ -434,7 +435,7 @@ class Emit:
             return "let %s := (List.map %s %s);\n    %s" % (v, fn, v, tailstr())
         if x[0] == "mcall" and x[2] in self.cfg.get("selfmut", {}) and x[1] == ("path", ["self"]):
             argi, tmpl = self.cfg["selfmut"][x[2]]
-            v = self.lhs_name(x[3][argi])
+            v = argi if isinstance(argi, str) else self.lhs_name(x[3][argi])
             return "let %s := (%s);\n    %s" % (v, tmpl.format(*[self.atom(a) for a in x[3]]), tailstr())
         if x[0] == "for" and x[2][0] != "range":
             # `for <pattern> in <list expression>`: a fold over the list
@@ -1028,6 +1029,22 @@ RECORDS = [
                                                                      "predicted_bbox": "predicted", "predicted_boxes": "predictedH", "observed_boxes": "observedH",
                                                                      "observed_features": "featuresH"})}),
 ]
+
+AW_SNIP = r"if self\.auto_waste\.counter == 0 \{.*?\} else \{.*?\}"
+AUTOWASTE = [
+    dict(group="AutoWaste", name="aw_" + nm, file=f, impl=impl, fn=fn, snippet=AW_SNIP, imperative=True, result="(st, counter, periodicity)",
+         sig="{S : Type} (collectFn : S → S) (st : S) (counter periodicity : Nat) : S × Nat × Nat",
+         fieldpath={"self.auto_waste.counter": "counter", "self.auto_waste.periodicity": "periodicity"},
+         selfmut={"auto_waste": ("st", "collectFn st")})
+    for nm, f, impl, fn in [("sort", "trackers/sort/simple_api.rs", r"impl Sort \{", "predict_with_scene"),
+                            ("batch_sort", "trackers/sort/batch_api.rs", r"impl BatchSort \{", "predict"),
+                            ("visual", "trackers/visual_sort/simple_api.rs", r"impl VisualSort \{", "predict_with_scene"),
+                            ("batch_visual", "trackers/visual_sort/batch_api.rs", r"impl BatchVisualSort \{", "predict")]
+] + [
+    dict(group="AutoWaste", name="aw_set", file="trackers/tracker_api.rs", impl=r"pub trait TrackerAPI[^{]*\{", fn="set_auto_waste", imperative=True,
+         result="(counter, periodicity_)", sig="(counter periodicity_ : Nat) (periodicity : Nat) : Nat × Nat",
+         fieldpath={"obj.periodicity": "periodicity_", "obj.counter": "counter"}, method={"get_auto_waste_obj_mut": "()"}),
+]
 # decision kernels over Nat / Rat (no field structure needed)
 GAL_METHOD = {"feature": "featureOf {0}", "attr": "{0}", "as_ref": "{0}", "unwrap": "{0}", "visual_quality": "quality {0}",
                  "partial_cmp": "cmpQ {0} {1}", "len": "List.length {0}", "iter": "{0}", "filter": "List.filter {1} {0}", "count": "List.length {0}"}
@@ -1134,13 +1151,20 @@ LOGIC = [
 def gen(repo, cfgs, header, footer):
     out, unread = [header], []
     for c in cfgs:
-        if c in LOGIC or c in TRACK or c in VOTING or c in TRACK_DIST or c in STORE or c in RECORDS:
+        if c in LOGIC or c in TRACK or c in VOTING or c in TRACK_DIST or c in STORE or c in RECORDS or c in AUTOWASTE:
             c = dict(c, scalar=c.get("scalar", "Rat"))
         path = os.path.join(repo, "src", c["file"])
         try:
             text = open(path).read()
             # drop test modules so that helper fns of the same name in tests are not picked up
-            params, body = parse_fn(text, c["fn"], c.get("impl"), c.get("occurrence", 0))
+            if "snippet" in c:                            # one statement of a function the reader cannot take whole (threads, raw pointers…)
+                _, btxt = find_fn(text, c["fn"], c.get("impl"), c.get("occurrence", 0))
+                ms = re.search(c["snippet"], btxt, re.S)
+                if not ms:
+                    raise Unsupported("the statement to translate was not found")
+                params, body = [], parse_block("{" + ms.group(0) + "}")
+            else:
+                params, body = parse_fn(text, c["fn"], c.get("impl"), c.get("occurrence", 0))
             if "dims_from" in c:                          # `pub const DIM: usize = N;`  and  `DIM_X2 = DIM * 2`
                 nm = c["dims_from"]
                 m1 = re.search(r"pub const %s: usize = (\d+);" % nm, text)
@@ -1326,6 +1350,7 @@ def main():
     jobs.append(("LTrack.lean", TRACK, HEADER_L + PRELUDE_TRACK, "SimVerif.Gen.L"))
     jobs.append(("LStoreCmd.lean", STORE, "import SimVerif.Gen.LBase\nimport SimVerif.Model.Track\n" + HEADER_L + "open SimVerif\n", "SimVerif.Gen.L"))
     jobs.append(("LRecord.lean", RECORDS, HEADER_L + PRELUDE_RECORD, "SimVerif.Gen.L"))
+    jobs.append(("LAutoWaste.lean", AUTOWASTE, HEADER_L, "SimVerif.Gen.L"))
     jobs.append(("LTrackDist.lean", TRACK_DIST, "import SimVerif.Gen.LTrack\nimport SimVerif.Model.Track\n" + HEADER_L + PRELUDE_TRACKDIST, "SimVerif.Gen.L"))
     jobs.append(("LConstr.lean", [c for c in LOGIC if c["group"] == "Constr"], HEADER_L + PRELUDE_DEDUP, "SimVerif.Gen.L"))
     jobs.append(("LBase.lean", [], HEADER_L + PRELUDE_BASE + PRELUDE_MAP, "SimVerif.Gen.L"))
